@@ -47,7 +47,10 @@ Record dp_cfg := mkCfg {
   (* which bytes coap_get_uri_path() / coap_get_query() copy unescaped (C16); the tie takes
      both tables from the library on every run, the theorems hold for any tables *)
   c_unesc_path : Z -> bool;
-  c_unesc_query : Z -> bool
+  c_unesc_query : Z -> bool;
+  (* session state: tokens for which a handler has registered an asynchronous (separate)
+     response that is still pending (coap_register_async, delay not expired) *)
+  c_async : list bytes
 }.
 
 (* ---- events ---- *)
@@ -497,12 +500,18 @@ Definition dp_hr_cont (cfg : dp_cfg) (h : dp_hreq -> dp_hresp) (mc : bool) (req 
        | None => dp_hr_lookup cfg h mc (with_opts opts) is_proxy
        end.
 
+Definition dp_async_pending (cfg : dp_cfg) (req : msg) : bool :=
+  existsb (dp_bytes_eqb (m_token req)) (c_async cfg).
+
 (* handle_request() *)
 Definition dp_handle_request (cfg : dp_cfg) (h : dp_hreq -> dp_hresp) (mc : bool) (crit : bool)
            (req : msg) : list dp_ev :=
   let opts := m_opts req in
   let code := m_code req in
   if mc && negb (m_type req =? NR_NON) then []
+  else if dp_async_pending cfg req then
+    (* "Retransmit async response": coap_send_ack_lkd() - an Empty ACK for a CON only *)
+    (if m_type req =? NR_CON then [dp_eack req] else [])
   else
     let has_ps := dp_has DP_PROXY_SCHEME opts in
     if has_ps && negb (dp_has DP_URI_HOST opts) then dp_fail cfg mc req None 130
